@@ -110,6 +110,8 @@ type head struct {
 	blank  string   // the terminating empty line: "\r\n" or "\n"
 	endMod string   // crlf | lf | mixed
 	feats  []string
+
+	magicConts [][]byte // for well-known protocol magic heads: the continuations that complete the magic (magic_test.go)
 }
 
 func (h *head) bytes() []byte {
@@ -175,6 +177,11 @@ var (
 // full-message readers must not read anything (so the continuation never
 // legitimately matters for them).
 func genHead(rnd *rand.Rand, kind string, noBody bool) *head {
+	if rnd.Intn(8) == 0 {
+		if m := genMagicHead(rnd, kind, noBody); m != nil {
+			return m
+		}
+	}
 	h := &head{kind: kind}
 	feat := func(s string) { h.feats = append(h.feats, s) }
 	if rnd.Intn(10) == 0 {
@@ -332,12 +339,15 @@ func continuation(rnd *rand.Rand, j int) (string, []byte) {
 		return "chunked-body", []byte("5\r\nhello\r\n0\r\n\r\n")
 	case 16:
 		return "long-no-lf", bytes.Repeat([]byte("c"), 300+rnd.Intn(5000))
-	default:
+	case 17:
 		return "long-then-lflf", append(bytes.Repeat([]byte("c"), 300+rnd.Intn(3000)), "\n\nX: y\r\n\r\n"...)
+	default:
+		m := magicConts[rnd.Intn(len(magicConts))]
+		return fmt.Sprintf("magic(%s)", mon.Short([]byte(m), 24)), []byte(m)
 	}
 }
 
-const nContinuations = 18
+const nContinuations = 21 // 18..20: protocol magic
 
 // ---------------------------------------------------------------------------
 // executing the real parsers
@@ -621,6 +631,8 @@ func TestC09(t *testing.T) {
 	r.Require("pool_judged_conns", n/10)
 	r.Require("pool_abandoned_after_first_request", n/10)
 	r.Require("pool_ctx_reuse_observed", n/40)
+	r.Require("magic_heads", n/20)
+	r.Require("server_first_request_pairs", n/10)
 }
 
 func runCase(r *mon.Run, i int, rigs []*serverRig, pool *logRig) {
@@ -644,6 +656,10 @@ func runCase(r *mon.Run, i int, rigs []*serverRig, pool *logRig) {
 	H := h.bytes()
 	shape := h.needsLaterCRLFCRLF()
 	nontrivial := len(h.lines) > 1 || shape
+	if len(h.magicConts) > 0 {
+		r.Event("magic_heads", 1)
+		nontrivial = true
+	}
 	base := map[string]any{"op": op, "head": q(H), "line_ends": h.endMod, "blank_form": h.blankForm(), "features": h.feats}
 
 	if mode == 7 {
@@ -685,7 +701,11 @@ func runCase(r *mon.Run, i int, rigs []*serverRig, pool *logRig) {
 				r.Event("complete_heads_rejected", 1)
 			}
 		}
-		// (the differential over continuations at server level is C01's business)
+		// server-level differential on the FIRST request only (what follows it is C01's business):
+		// whether and how the head is dispatched must not depend on the continuation
+		if res.Panic == "" && !res.Loop {
+			serverDifferential(r, i, rnd, h, H, base)
+		}
 		r.Case(fmt.Sprintf("%s/%s/%s/%s/nf=%d/%v/%s", op, kind, h.endMod, h.blankForm(), min(len(h.lines)-1, 4), h.feats, verdict), nontrivial)
 		return
 	}
@@ -722,8 +742,14 @@ func runCase(r *mon.Run, i int, rigs []*serverRig, pool *logRig) {
 	names := []string{"empty"}
 	conts := [][]byte{nil}
 	pls := []readPlan{pl0}
-	for _, j := range perm[:4] {
+	mperm := rnd.Perm(max(len(h.magicConts), 1))
+	for k, j := range perm[:4] {
 		name, S := continuation(rnd, j+1)
+		if len(h.magicConts) > 0 && k < 3 {
+			// a magic head is always paired with (three of) the continuations completing the magic
+			S = h.magicConts[mperm[k]]
+			name = fmt.Sprintf("magic(%s)", mon.Short(S, 24))
+		}
 		in := append(append([]byte{}, H...), S...)
 		pl := genPlan(rnd, len(H))
 		o := parse(op, in, pl)
